@@ -16,6 +16,7 @@ Correspondence (model vs implementation, per scenario):
   (e) StateBlockIndex == the model's; the label 2^N is rejected (harness h_c03 under ASan).
 """
 import json
+import re
 import pv
 import edlib
 import hpartlib as hl
@@ -141,6 +142,28 @@ def analyse(text, variant, mode):
     return r, fails, {"hscale": hscale, "melabel": " ".join(melabel[2:]), "cert": r.cert}
 
 
+def numpy_sanity(text, variant):
+    """TESTING layer, not part of the decision: eigenvalues of the full-space matrix (oracle's HFULL) by numpy.linalg.eigvalsh
+    (python3-vt) against the sorted concatenation of the reported block eigenvalues. Returns max deviation or None."""
+    r = edlib.run(text, ["hfull"], variant=variant)
+    hf = [t for t in r.oracle if t[0] == "HFULL"]
+    if not hf or not r.eigs():
+        return None
+    vals = hl.cplx_list(hf[0][1:])
+    ev = sorted(e for l in r.eigs().values() for e in l)
+    prog = ("import sys, json, numpy as np\n"
+            "d = json.load(sys.stdin)\n"
+            "n = d['n']\n"
+            "h = np.array([complex(a, b) for a, b in d['h']]).reshape(n, n)\n"
+            "w = np.linalg.eigvalsh((h + h.conj().T) / 2)\n"
+            "print(max(abs(w - np.array(d['e']))))\n")
+    rc, out, err = pv.sh(["python3-vt", "-c", prog], input=json.dumps({"n": 1 << r.n(), "h": [(z.real, z.imag) for z in vals], "e": ev}), timeout=120)
+    try:
+        return float(out.strip())
+    except ValueError:
+        return None
+
+
 def probe_label_bound(chk):
     """which label test does the code have? (h_c03 under ASan).  Returns 'fixed' | 'unfixed'."""
     h = pv.build_harness("h_c03", "asan")
@@ -153,7 +176,6 @@ def probe_label_bound(chk):
         lines = [l.split() for l in out.split("\n") if l.strip()]
         probes = {(int(t[1]), t[2]): t[3:] for t in lines if t[0] == "PROBE"}
         sbi = [[int(x) for x in t[1:]] for t in lines if t[0] == "SBI"]
-        blocks = {int(t[1]): [int(x) for x in t[3:]] for t in lines if t[0] == "BLOCK"}
         rcm, mo, _ = hl.model([t for t in lines if t[0] in ("N", "NBLOCKS", "BLOCK")], ["sbi"])
         msbi = [[int(x) for x in t[1:]] for t in mo if t[0] == "MSBI"]
         chk.case("label-bound N=%d" % n, "label-bound|N=%d" % n, nontrivial=True,
@@ -172,7 +194,7 @@ def probe_label_bound(chk):
             where = [l for l in err.split("\n") if "StatesClassification" in l][:1]
             chk.violation("state-label-bound label=2^N",
                           "StatesClassification::getBlockNumber / getInnerState / Hamiltonian::getEigenValue accept the state label 2^N = %d of a %d-state space "
-                          "(test `> StateSize` instead of `>=`): %s; probes: %r" % (q, q, ("ASan: " + (where[0].strip() if where else "heap-buffer-overflow")) if asan else "no exception", {k: v for k, v in probes.items() if k[0] == q}),
+                          "(test `> StateSize` instead of `>=`): %s; probes: %r" % (q, q, ("ASan heap-buffer-overflow " + (re.sub(r"^#\d+ 0x[0-9a-f]+ ", "", where[0].strip()) if where else "")) if asan else "no exception", {k: v for k, v in probes.items() if k[0] == q}),
                           {"harness": "h_c03", "variant": "asan", "input": inp, "stderr_tail": err[-600:], "proposed_fix": "proposed/fix-state-label-bound.diff"})
     return mode
 
@@ -189,7 +211,7 @@ def report(chk, family, kind, variant, text, mode, fails):
         cnt[fk + "|" + variant] = cnt.get(fk + "|" + variant, 0) + 1
         if cnt[fk + "|" + variant] > 2:
             continue                      # two shrunk instances per kind and build are reported; the count stays in the evidence
-        small = hl.shrink(text, lambda cand: any(f[0] == fk for f in analyse(cand, variant, mode)[1])) 
+        small = hl.shrink(text, lambda cand: any(f[0] == fk for f in analyse(cand, variant, mode)[1]))
         _, f2, _ = analyse(small, variant, mode)
         d2 = next((f[2] for f in f2 if f[0] == fk), detail)
         rep = {"check": "C03", "kind": fk, "variant": variant, "scenario": small, "original": text, "detail": d2, "mode": mode}
@@ -222,11 +244,9 @@ def run(chk):
     else:
         plan.append(("complex", True, 6))       # a few complex-Hermitian cases also in the quick tier (the variant is built once)
     certs = []
+    sanity = []
     for variant, cplx, count in plan:
-        try:
-            edlib.binaries(variant)
-        except pv.BuildError:
-            raise
+        edlib.binaries(variant)
         for family, kind, text, nm in hl.gen_cases(chk.rng, count, variant, complex_amplitudes=cplx):
             r, fails, facts = analyse(text, variant, mode)
             if any(f[0] == "workflow" for f in fails):
@@ -238,11 +258,17 @@ def run(chk):
                              "cert": facts.get("cert"), "signature": sig} if len(chk.samples) < 6 and chk.evaluations % 7 == 0 else None)
             if facts.get("cert"):
                 certs.append(facts["cert"])
+            if chk.evaluations % (16 if quick else 5) == 0:
+                dev = numpy_sanity(text, variant)
+                if dev is not None:
+                    sanity.append(dev)
             want = "FAIL OOB" if mode == "unfixed" else "FAIL Throws2"
             if facts.get("melabel") and facts["melabel"] != want:
                 chk.tie_broken("label bound model", "model getEigenValue(2^N) = %s in mode %s" % (facts["melabel"], mode))
             if fails:
                 report(chk, family, kind, variant, text, mode, fails)
+    chk.extra["numpy_sanity_TESTING_ONLY"] = {"scenarios": len(sanity), "max_deviation_of_sorted_spectra": max(sanity) if sanity else None,
+                                              "note": "numpy.linalg.eigvalsh of the full-space matrix vs reported eigenvalues; additional testing layer, never decides"}
     if certs:
         chk.extra["certificate_max"] = {"residual": max(c[0] for c in certs), "unitarity": max(c[1] for c in certs), "scenarios": len(certs)}
     chk.rule = ("scenario = model family (Hubbard atom, two-site incl. spin-flip, Anderson, free degenerate, atomic limit, Kanamori, exchange, pairing, spinless 3-orbital) "
